@@ -191,7 +191,8 @@ Init_Dates ==
        /\ (skel # "none" => d2 = 7)
        /\ orph = IF wo THEN {x \in {[t |-> "home", o |-> 9], [t |-> "t2:V1", o |-> 10]} : x.t # skel} ELSE {}
   /\ strays \in {{}, {[t |-> "home", id |-> 1, r |-> "R", d |-> "d", n |-> "b", date |-> 4]}}
-  /\ junk = {}
+  \* an info that cannot be read at all (a directory, a dangling link, binary) has no date either: kept under DAYS
+  /\ junk \in {{}, {[t |-> "home", id |-> 2, kind |-> "nopath"]}}
   /\ clock = 10 /\ purged = {} /\ out = [cmd |-> "init"]
 Next_EmptyDays ==
   \E days \in {-1, 0, 1, 2, 3}, td \in {"none", "V1", "V1+R"} :
